@@ -10,9 +10,9 @@ import (
 
 func init() {
 	register(&Rule{
-		ID: "C19",
+		ID:      "C19",
 		Explain: "Decides the Lamport clock's monotonicity for every interleaving by a linearisation argument over shape facts: the counter is written only through atomic Add(+c, c>=1) and CompareAndSwap (no Store/Swap anywhere in the module); the CAS's expected value is the value loaded in the same iteration, its new value is other+c (c>=1) on a path where other >= loaded, so each successful step strictly increases the counter; a failed CAS re-executes the load; Increment returns the result of its single Add (distinct per call by atomicity). The remaining clause 'strictly greater for every representable value' needs other != MaxUint64 before other+1: absent today (one gossip message with time 2^64-1 wraps the clock to 0) — recorded as a known finding because no uint64 clock can satisfy the clause at that value.",
-		Run: runC19,
+		Run:     runC19,
 		Mutants: []Mutant{
 			{Name: "witness-plain-store", File: "serf/lamport.go", Func: "func (l *LamportClock) Witness(", Old: "\tif !l.counter.CompareAndSwap(cur, other+1) {\n", New: "\tl.counter.Store(other + 1)\n\tif false {\n", Expect: "R1"},
 			{Name: "witness-allows-equal-noop", File: "serf/lamport.go", Func: "func (l *LamportClock) Witness(", Old: "if other < cur {", New: "if other <= cur {", Expect: "R2"},
@@ -24,9 +24,9 @@ func init() {
 		},
 	})
 	register(&Rule{
-		ID: "C06",
+		ID:      "C06",
 		Explain: "Decides uniqueness and causal lateness of locally originated Lamport times structurally: in Serf.UserEvent and Serf.Query the LTime stored into the originated message is (up to a constant offset >= -1) the result of ONE LamportClock.Increment() on the matching clock — a single atomic fetch-add, hence distinct for concurrent callers and not below the clock value at call entry — never a Time() read that is advanced by a separate later step; the receive handlers witness every processed time first (C05/C14), so it exceeds every time already processed; the query-response table is keyed by that same value.",
-		Run: runC06,
+		Run:     runC06,
 		Mutants: []Mutant{
 			{Name: "userevent-read-then-increment", File: "serf/serf.go", Func: "func (s *Serf) UserEvent(", Old: "LTime:   s.eventClock.Increment() - 1,", New: "LTime:   s.eventClock.Time(),", Expect: "R1"},
 			{Name: "query-read-time", File: "serf/serf.go", Func: "func (s *Serf) Query(", Old: "LTime:       s.queryClock.Increment() - 1,", New: "LTime:       s.queryClock.Time(),", Expect: "R1"},
@@ -122,7 +122,6 @@ func runC19(c *an.Ctx) {
 		c.Add(ok, "R4", "Time:plain-load", tm, "Time is an atomic load of the counter", "result path")
 	}
 }
-
 
 // witnessRules checks the shape of LamportClock.Witness (C19.R2/R3). C06 and
 // C03 rely on its post-condition (after Witness(v) the clock exceeds v), so
